@@ -17,7 +17,9 @@ type c12Image struct {
 	Name  string
 	Cfg   Cfg
 	Trace string
-	Dense bool // small image: every byte is faulted; otherwise only bytes near chunk headers + a stride
+	Dense bool     // small image: every byte is faulted; otherwise only bytes near chunk headers + a stride
+	Ops   []Op     // instead of Trace (keys that cannot be typed)
+	Keys  []string // key universe (default a, b)
 }
 
 func c12Images(tier string) []c12Image {
@@ -45,6 +47,11 @@ func c12Images(tier string) []c12Image {
 			c12Image{Name: "batch-overflow", Cfg: defaultCfg, Trace: "batch[put a L, put b L, put a S]; del a", Dense: true},
 			c12Image{Name: "btree-plain", Cfg: bt, Trace: "put a S; put b S; del a; put a L", Dense: true},
 			c12Image{Name: "empty-values", Cfg: defaultCfg, Trace: "put a E; put b S; put a E", Dense: true},
+			// hint records that span block boundaries (two 20 000-byte keys), finished merge not yet adopted / adopted
+			c12Image{Name: "long-key-hint-unadopted", Cfg: longKeyCfgs()[2], Keys: c18LongKeys, Trace: "put K S; put L S; put m S; put K S; merge",
+				Ops: []Op{{K: "put", Key: c18LongKeys[0], VC: "S"}, {K: "put", Key: c18LongKeys[1], VC: "S"}, {K: "put", Key: "m", VC: "S"}, {K: "put", Key: c18LongKeys[0], VC: "S"}, {K: "merge"}}},
+			c12Image{Name: "long-key-hint-adopted", Cfg: longKeyCfgs()[0], Keys: c18LongKeys, Trace: "put K S; put L S; put m S; merge; restart; put m S",
+				Ops: []Op{{K: "put", Key: c18LongKeys[0], VC: "S"}, {K: "put", Key: c18LongKeys[1], VC: "S"}, {K: "put", Key: "m", VC: "S"}, {K: "merge"}, {K: "restart"}, {K: "put", Key: "m", VC: "S"}}},
 		)
 	}
 	return imgs
@@ -146,13 +153,21 @@ func (bi *builtImage) faultClass(f fault) string {
 
 func buildImage(im c12Image) (*builtImage, error) {
 	beginExecution()
-	w := NewWorld(im.Cfg, keysAB)
+	keys := im.Keys
+	if keys == nil {
+		keys = keysAB
+	}
+	w := NewWorld(im.Cfg, keys)
 	defer w.Destroy()
 	if err := w.Open(); err != nil {
 		return nil, err
 	}
 	prefix := []map[string]string{{}}
-	for _, op := range parseTrace(im.Trace) {
+	ops := im.Ops
+	if ops == nil {
+		ops = parseTrace(im.Trace)
+	}
+	for _, op := range ops {
 		if ar := w.Apply(op); ar.Err != nil || w.Dead {
 			return nil, fmt.Errorf("building image %s: %s failed: %v", im.Name, op, ar.Err)
 		}
@@ -161,7 +176,7 @@ func buildImage(im c12Image) (*builtImage, error) {
 	if err := w.Close(); err != nil {
 		return nil, err
 	}
-	bi := &builtImage{snap: takeSnap(w.Root), hist: w.Hist, keys: keysAB, starts: map[string][]int{},
+	bi := &builtImage{snap: takeSnap(w.Root), hist: w.Hist, keys: keys, starts: map[string][]int{},
 		final: copyModel(w.Model), prefix: prefix, ext: map[string][][2]int{}}
 	for _, rel := range sortedKeys(bi.snap.Files) {
 		if !(strings.HasSuffix(rel, ".data") || strings.HasSuffix(rel, ".hint")) {
@@ -433,7 +448,10 @@ func judgeFaulted(bi *builtImage, cfg Cfg, s *Snap, class string, res *TaskResul
 	}
 	// the opened database stays usable: what is written now reads back (positions continue from the repaired end)
 	perr = w.guard(func() error {
-		for i, k := range []string{"a", "b", "a"} {
+		for i, k := range []string{bi.keys[0], bi.keys[len(bi.keys)-1], bi.keys[0]} {
+			if bi.hist[k] == nil {
+				bi.hist[k] = map[string]bool{}
+			}
 			val := []byte(fmt.Sprintf("after-damage-%d-%s", i, strings.Repeat("x", i*40)))
 			if err := w.DB.Put([]byte(k), val); err != nil {
 				return nil // refusing to write is an error return, not a violation
@@ -488,14 +506,24 @@ func c12Tasks(tier string) []Task {
 						res.Transitions++
 						fs := applyFault(bi.snap, f)
 						res.States = append(res.States, fs.hash())
-						c, d := judgeFaulted(bi, im.Cfg, fs, bi.faultClass(f), res)
-						res.Nontrivial++
-						if c != "" {
-							res.Violations = append(res.Violations, Violation{Prop: "C12", Clause: c, Sig: c + ":" + f.Kind,
-								Detail: fmt.Sprintf("image %q (cfg %s, built by [%s]), fault %s\n%s", im.Name, im.Cfg, im.Trace, f, d),
-								Replay: mustJSON(map[string]any{"engine": "corrupt", "property": "C12", "image": im.Name, "fault": f})})
-							stop = len(res.Violations) >= 2
-							return !stop
+						// the damaged directory is opened under the configuration that wrote it and (thorough tier) through
+						// the memory-mapped read path
+						readers := []Cfg{im.Cfg}
+						if tier == "thorough" {
+							mm := im.Cfg
+							mm.IO = 1
+							readers = append(readers, mm)
+						}
+						for _, rc := range readers {
+							c, d := judgeFaulted(bi, rc, fs, bi.faultClass(f), res)
+							res.Nontrivial++
+							if c != "" {
+								res.Violations = append(res.Violations, Violation{Prop: "C12", Clause: c, Sig: c + ":" + f.Kind,
+									Detail: fmt.Sprintf("image %q (cfg %s, built by [%s]), opened as %s, fault %s\n%s", im.Name, im.Cfg, im.Trace, rc, f, d),
+									Replay: mustJSON(map[string]any{"engine": "corrupt", "property": "C12", "image": im.Name, "fault": f, "reader_io": rc.IO})})
+								stop = len(res.Violations) >= 2
+								return !stop
+							}
 						}
 						return true
 					})
@@ -528,8 +556,9 @@ func init() {
 		},
 		Replay: func(raw json.RawMessage) {
 			var m struct {
-				Image string `json:"image"`
-				Fault fault  `json:"fault"`
+				Image    string `json:"image"`
+				Fault    fault  `json:"fault"`
+				ReaderIO byte   `json:"reader_io"`
 			}
 			json.Unmarshal(raw, &m)
 			for _, im := range c12Images("thorough") {
@@ -542,7 +571,9 @@ func init() {
 					os.Exit(2)
 				}
 				var res TaskResult
-				c, d := judgeFaulted(bi, im.Cfg, applyFault(bi.snap, m.Fault), bi.faultClass(m.Fault), &res)
+				rc := im.Cfg
+				rc.IO = m.ReaderIO
+				c, d := judgeFaulted(bi, rc, applyFault(bi.snap, m.Fault), bi.faultClass(m.Fault), &res)
 				if c != "" {
 					fmt.Printf("VIOLATION clause=%s\n%s\n", c, d)
 					os.Exit(1)
